@@ -330,6 +330,8 @@ pub fn l_sll(cx: &mut Cx, s: &LinuxSllSlice) -> NLayer {
     l.p("hrd", s.arp_hardware_type().0);
     l.p("alen", s.sender_address_valid_length());
     l.blob("addr", &s.sender_address_full());
+    // the valid part of the address field (at most the 8 octets the field has)
+    l.blob("~saddr", s.sender_address());
     let (k, v) = sll_pkind(&s.protocol_type());
     l.p("proto", v);
     l.p("pkind", k);
